@@ -24,7 +24,7 @@ class Leaf:
 
 @dataclass
 class StrLeaf:
-    pass  # StrLeaf<StrE> with variants Alpha, Beta, Gamma
+    pass  # StrLeaf<StrE> with variants Alpha, Beta, Gamma, alpha
 
 
 @dataclass
